@@ -25,7 +25,8 @@ MONITORS = ["timingdata_source", "displaybpm"]
 REQUIRED = ["source_chart", "source_simfile", "version_0.7", "version_0.69", "version_absent", "sm_simfile", "sm_chart",
             "chart_offset_absent_simfile_offset_set", "dbpm_static", "dbpm_range", "dbpm_random", "dbpm_malformed",
             "dbpm_fallback_single", "dbpm_fallback_range", "dbpm_fallback_range_equal_values", "ignore_specified",
-            "non_timing_chart_property_set", "chart_value_identical_to_simfile_value", "key_only_chart_timing_property"]
+            "non_timing_chart_property_set", "chart_value_identical_to_simfile_value", "key_only_chart_timing_property",
+            "sm_simfile_stops_spelled_freezes", "dbpm_number_equal_to_zero"]
 
 PROPS = ["BPMS", "STOPS", "DELAYS", "TIMESIGNATURES", "TICKCOUNTS", "COMBOS", "WARPS", "SPEEDS", "SCROLLS", "FAKES", "LABELS"]
 VERSIONS = [None, "", "0.69", "0.7", "0.70", "0.83", "1.0"]
@@ -142,9 +143,17 @@ def tagged_values(rng, side):
 
 
 def dbpm_value(rng, cls):
+    zero = lambda: rng.choice(["0", "0.000", "0.0", "000", "-0.000"])
     if cls == "static":
-        return rnum(rng)
+        return zero() if rng.random() < 0.15 else rnum(rng)
     if cls == "range":
+        r = rng.random()
+        if r < 0.08:
+            return zero() + ":" + rnum(rng)
+        if r < 0.16:
+            return rnum(rng) + ":" + zero()
+        if r < 0.2:
+            return zero() + ":" + zero()
         return rnum(rng) + ":" + rnum(rng)
     if cls == "random":
         return "*"
@@ -180,10 +189,13 @@ def run_one(ctx, case):
     s_bpms_state = rng.choice([2, 2, 2, 2, 1, 0])
     for key in ("BPMS", "STOPS", "DELAYS", "WARPS"):
         st = s_bpms_state if key == "BPMS" else rng.choice([0, 1, 2, 2])
+        if key == "STOPS" and case["sf"] == "sm" and st and rng.random() < 0.5:
+            key = "FREEZES"   # the legacy spelling of STOPS in SM files: the simfile's stops all the same
+            ctx.feat("sm_simfile_stops_spelled_freezes")
         if st == 1:
             sf[key] = ""
         elif st == 2:
-            sf[key] = sv[key]
+            sf[key] = sv["STOPS" if key == "FREEZES" else key]
     s_off = rng.choice([0, 1, 2, 2])
     if s_off:
         sf["OFFSET"] = "" if s_off == 1 else sv["OFFSET"]
@@ -248,7 +260,10 @@ def run_one(ctx, case):
     detail = {"config": case, "version": version, "simfile": dict(sf), "chart": dict(chart) if chart is not None else None,
               "expected_source": "chart" if from_chart else "simfile"}
     for attr, key in (("bpms", "BPMS"), ("stops", "STOPS"), ("delays", "DELAYS"), ("warps", "WARPS")):
-        want = parse_events(src.get(key))
+        text = src.get(key)
+        if key == "STOPS" and "STOPS" not in src and src is sf and case["sf"] == "sm":
+            text = src.get("FREEZES")
+        want = parse_events(text)
         got = [(Fraction(e.beat), e.value) for e in getattr(td, attr)]
         if got != want:
             ctx.violation(f"timingdata:{attr}-from-wrong-source-or-wrong-value", dict(detail, field=key, got=repr(got), want=repr(want)))
@@ -277,6 +292,8 @@ def run_one(ctx, case):
             else:
                 want = StaticDisplayBPM(value=Decimal(spec))
                 ctx.feat("dbpm_static")
+            if spec != "*" and any(Decimal(x) == 0 for x in spec.split(":")):
+                ctx.feat("dbpm_number_equal_to_zero")
         except InvalidOperation:
             want = None
             ctx.feat("dbpm_malformed")
